@@ -95,6 +95,18 @@ func genTree(a *hx.Args, keys []string, perTree int) {
 			walk(combos[rng.Intn(len(combos))], rng.Pick(prefixes), []string{"", "/"}[rng.Intn(2)], maxKeys27[rng.Intn(len(maxKeys27))], "", steps)
 		}
 	}
+	// V2 from a start-after key, continued to exhaustion: token only, and start-after re-sent with the token
+	for i, k := range keys {
+		if perTree > 0 && i >= 2 {
+			break
+		}
+		if perTree > 0 {
+			k = rng.Pick(keys)
+		}
+		mk := 1 + rng.Intn(2)
+		walk(combo{"v2b", "next"}, "", "", mk, k, steps)
+		walk(combo{"v2", "next"}, "", []string{"", "/"}[rng.Intn(2)], mk, k, steps)
+	}
 	// single pages from arbitrary markers (page validity only)
 	markers := append([]string{"a/", "a.b", "a/b/", "zz", "/", "d/e/f"}, keys...)
 	nm := len(markers)
@@ -110,7 +122,21 @@ func genTree(a *hx.Args, keys []string, perTree int) {
 	}
 }
 
+// one directory with more children than the filer's store page (filer.PaginationSize = 1024)
+func genBig() {
+	var hk []string
+	for i := 0; i < 1100; i++ {
+		hk = append(hk, hx.HexS("big/"+strconv.Itoa(10000+i)))
+	}
+	hk = append(hk, hx.HexS("z"))
+	run("reset", hk)
+	walk(combo{"v2", "next"}, "big/", "", 10000, "", 3)
+	walk(combo{"v1", "next"}, "", "", 1050, "", 4)
+	walk(combo{"dr", "next"}, "big/1", "/", 2000, "", 3)
+}
+
 func generate(a *hx.Args) {
+	genBig()
 	trees := subsets(names27, 5)
 	deep := subsets(deep27, 5)
 	if a.Thorough() {
